@@ -298,6 +298,10 @@ func (c *ChainExec) Exec(op string) string {
 			if change.Sign() < 0 {
 				return "build=funds"
 			}
+			if rem := argI(toks, "rem", 0); rem != 0 {
+				// an account output that is not a whole number of commitment units (the commitment covers amount/unit only)
+				amount = new(big.Int).Add(amount, big.NewInt(rem))
+			}
 			dests = append(dests, &types.AccountDestEntry{To: c.Accts[argI(toks, "to", 0)].Addr, Amount: amount})
 			if change.Sign() > 0 {
 				// change goes back to the wallet: this makes the tx Uin -> (Aout, Uout) and adds the confidential fee
